@@ -231,6 +231,8 @@ def g_set_property(w, rng, st):
     for _ in range(6):
         name = rng.choice(names)
         v = gen_value(rng, name, kind)
+        if name == 'stitch_node' and kind == 'service' and 'stitch_node_on_service' in w.avoid:
+            v = False       # recorded finding F-C10-validate-resets-stitch-node
         if v is not None:
             return {'kind': kind, 'ref': ref, 'name': name, 'val': v}
         w.stats.inc('probe.no_value_generator.%s' % name)
@@ -264,6 +266,8 @@ def g_set_properties(w, rng, st):
     vals = {}
     for name in rng.sample(names, min(3, len(names))):
         v = gen_value(rng, name, kind)
+        if name == 'stitch_node' and kind == 'service' and 'stitch_node_on_service' in w.avoid:
+            v = False
         if v is not None:
             vals[name] = v
     if kind == 'node' and rng.random() < 0.5:
